@@ -164,6 +164,12 @@ func Load(repoDir, goarch string, tests bool) (*Program, error) {
 		}
 		addFn(fn)
 	}
+	// promotion wrappers of embedded helper structs stand for the outer type's methods; they belong to no ssa package
+	for fn := range PromoWrapper {
+		if fn.Parent() == nil && !absorbed[fn] {
+			addFn(fn)
+		}
+	}
 	sort.Slice(p.RepoFns, func(i, j int) bool { return p.RepoFns[i].String() < p.RepoFns[j].String() })
 	sort.Slice(p.TestFns, func(i, j int) bool { return p.TestFns[i].String() < p.TestFns[j].String() })
 	p.LoadSecs = time.Since(t0).Seconds()
